@@ -410,6 +410,20 @@ def run_check(prop: PropertyCheck, tier: str, seed: int) -> int:
         hits = forbidden_scan()
         for h in hits:
             ties_broken.append("forbidden:" + h)
+    leanchecker = None
+    if ok and tier == "thorough":
+        # independent re-check of the compiled proofs (thorough tier only)
+        lock = _lake_lock()
+        try:
+            lc = subprocess.run(["lake", "env", "leanchecker", f"SnootyVerif.Properties.{pid}"], cwd=LEAN,
+                                stdout=subprocess.PIPE, stderr=subprocess.STDOUT, text=True, timeout=1500)
+            leanchecker = {"rc": lc.returncode, "tail": lc.stdout[-300:]}
+            if lc.returncode != 0:
+                ties_broken.append("leanchecker: " + lc.stdout[-200:])
+        except (FileNotFoundError, subprocess.TimeoutExpired) as e:
+            leanchecker = {"rc": None, "tail": f"not run: {e}"}
+        finally:
+            lock.close()
     static = prop.static_obligations()
     for name, sok, detail in static:
         if not sok:
@@ -544,6 +558,7 @@ def run_check(prop: PropertyCheck, tier: str, seed: int) -> int:
         },
         "distribution": dict(sorted(tags.items())),
         "ties_broken": ties_broken,
+        "leanchecker": leanchecker,
         "replays": replay_paths,
     }
     cov.update(extra_cov)
